@@ -6,6 +6,7 @@ From Frugal.proofs Require Import GenDecParams GenDepth SkipPut Corollaries.
 From Frugal.props Require Import Examples.
 From Frugal Require Import DisciplineChecks.
 From Frugal.proofs Require Import GenPools GenDepthArgs.
+From Frugal.proofs Require Import GenDesc.
 Import ListNotations.
 
 (* any wire struct, whatever the field order, duplicates, unknown or retyped fields, whoever wrote
@@ -50,3 +51,7 @@ Proof. split; [exact dec_params_ok_holds | exact depth_ok_holds]. Qed.
    read from the source by the translator and re-proved on every run *)
 Theorem C03_model_assumptions : pools_ok = true /\ depth_args_ok = true.
 Proof. split; [exact pools_ok_holds | exact depth_args_ok_holds]. Qed.
+
+(* the descriptor construction of desc.go reads as the model assumes (DisciplineChecks.desc_ok) *)
+Theorem C03_descriptor_shape : desc_ok = true.
+Proof. exact desc_ok_holds. Qed.
